@@ -191,6 +191,31 @@ CHECKS['C45'] = (
     'Absolute-trigger graphs (s[^], foo[^], foo[2], custom and :start outputs, AND with ordinary parents, two absolute parents) x all event interleavings x one stop --now --now + restart at every boundary: once the environment has really completed the absolute output, every pooled dependent instance - present, spawned later, restored by the restart or spawned after it - must have that atom satisfied; when all jobs are final every dependent ran.',
     A_NOTE + ' One restart; jobs frozen while down.')
 
+CHECKS['C05'] = (
+    'schedmc', 'model_checking', A_TECH + '; plus bounded-exhaustive enumeration of queue configurations', '6/C05',
+    'Dynamic leg: the real Scheduler on 6 (quick) / 12 (thorough) queue-limited fan-out/chain workflows x all job outcome orders x hold/release/trigger commands; every release is judged against the limit (preparing/submitted/running/awaiting-preparation members), FIFO order and held-skipping, and after every transition active-minus-manual <= limit and every queued proxy sits in exactly its owner deque. Static leg: all <=3-queue membership assignments over 4 tasks + 1 family, limits 0..3, through the real IndepQueueManager/WorkflowConfig against "last queue that lists it, else default".',
+    A_NOTE + ' R1 single-cycle graphs, all-success jobs, no reload/restart.')
+CHECKS['C32'] = (
+    'schedmc', 'model_checking', A_TECH, '6/C32',
+    'Datetime workflows with clock-expire offsets; the virtual clock is advanced to each pending expiry deadline and to 1 s before it at every boundary, with trigger/hold commands. Every transition to expired is judged (from waiting, not manually triggered, now >= cycle point + offset computed independently), as is every later jobs-submit and everything added to the pool while the expired output is completed (exactly the :expire children).',
+    A_NOTE + ' Hourly UTC cycling; liveness of expiry not judged.')
+CHECKS['C08'] = (
+    'schedmc', 'model_checking', A_TECH, '6/C08',
+    'Trigger/set commands with --flow=new|none|N|all and --wait (1-2 per execution quick, <=3 thorough) at every boundary of chain/diamond/OR-diamond runs, with one stop --now --now + restart between commands. Every number allocated for --flow=new must be absent from the monitor\'s ever-seen set (kept outside the scheduler across restarts); at every spawn/merge a new child carries exactly its parent\'s flows and an existing one ends in the union; an instance finished-complete in flow f and respawned carrying f is never submitted unless manually triggered.',
+    A_NOTE)
+CHECKS['C30'] = (
+    'schedmc', 'model_checking', A_TECH, '6/C30',
+    'Every cylc remove (with and without --flow) of every instance at every boundary of chain/diamond/OR-diamond/inter-cycle runs, optionally after a set-up command creating a force-satisfied prerequisite or a second flow. The pool right before/after the command and the private DB at the end of that iteration are diffed against a frame computed from the statement and the graph term; a removed instance back in the pool with all prerequisites must run.',
+    A_NOTE + ' One removal per execution.')
+CHECKS['C27'] = (
+    'schedmc', 'model_checking', A_TECH, '6/C27',
+    'At every boundary of every reachable state of small workflows (held, queued, paused, runahead-limited states included) a variant definition (unchanged, +task, +edge, -task, -edge) is swapped in and reload_workflow queued. Pool at entry of the reload vs pool at the end of the command: status, flows, submit number, held, outputs (and runahead when nothing was dropped) equal; prerequisite atoms are those of the new term; kept atoms keep their satisfaction; new atoms satisfied iff a job delivered that output; orphans dropped iff still waiting.',
+    A_NOTE + ' Pending jobs-submit commands are completed successfully during the reload wait loop.')
+CHECKS['C25'] = (
+    'schedmc', 'model_checking', A_TECH, '6/C25',
+    'Natural runs of the C01 shapes plus hold/release/trigger commands, one reload and (thorough) graph-window resizes: after every Scheduler.update_data_structure each pooled proxy is compared with its data-store element; a client mirror initialised from the first published batch is fed every later batch through a protobuf round trip and data_store_mgr.apply_delta and must equal the scheduler store element-wise, with matching checksums.',
+    A_NOTE + ' Restarts excluded; only the all topic is consumed; the client merge is a reconstruction of the UI server procedure around the real apply_delta.')
+
 NOT_BUILT_REASON = (
     'check not built yet in this session (designed in DESIGN.md section 6); '
     'no verdict is claimed')
